@@ -208,10 +208,11 @@ impl Report {
         }
         let _ = std::fs::create_dir_all(&self.replay_dir);
         let name = format!(
-            "{}-{}-{}-{}.replay",
+            "{}-{}-{}-{}-{}.replay",
             self.property,
             self.corr,
             kind,
+            std::process::id(),
             self.violations.len()
         );
         let path = self.replay_dir.join(name);
@@ -240,6 +241,11 @@ impl Report {
         o.push_str(&format!(" \"evaluations\": {},\n", self.evaluations));
         o.push_str(&format!(" \"distinct_nontrivial\": {},\n", self.distinct.unwrap_or(self.sigs.len() as u64)));
         o.push_str(&format!(" \"exhaustive\": {},\n", self.exhaustive));
+        o.push_str(&format!(
+            " \"sigs\": [{}],\n",
+            self.sigs.iter().map(|s| jstr(s)).collect::<Vec<_>>().join(", ")
+        ));
+        o.push_str(&format!(" \"distinct_is_sigs\": {},\n", self.distinct.is_none()));
         o.push_str(&format!(" \"rule\": {},\n", jstr(&self.rule)));
         o.push_str(" \"samples\": [");
         o.push_str(
@@ -310,6 +316,8 @@ pub struct Args {
     pub bin: Option<PathBuf>,
     pub known: Option<PathBuf>,
     pub property: String,
+    pub shard: usize,
+    pub shards: usize,
     pub extra: Vec<String>,
 }
 impl Args {
@@ -326,6 +334,8 @@ impl Args {
             bin: None,
             known: None,
             property: String::new(),
+            shard: 0,
+            shards: 1,
             extra: vec![],
         };
         let mut it = std::env::args().skip(1);
@@ -342,6 +352,8 @@ impl Args {
                 "--bin" => a.bin = Some(it.next().unwrap().into()),
                 "--known" => a.known = Some(it.next().unwrap().into()),
                 "--property" => a.property = it.next().unwrap(),
+                "--shard" => a.shard = it.next().unwrap().parse().unwrap_or(0),
+                "--shards" => a.shards = it.next().unwrap().parse().unwrap_or(1),
                 other => a.extra.push(other.to_string()),
             }
         }
